@@ -124,6 +124,7 @@ PROPS = {
     "C09": {
         "level": "proof",
         "extract": ["SigGrammar"],
+        "extra_modules": ["QiVerif.Props.C09Sound"],
         "rule": "random signatures of the grammar (depth<=5, all 16 basic letters, lists, maps, tuples, structs with plain "
                 "and template names; tuple nesting <= 7 because of the exponential parse time recorded under C07), 45% parsed "
                 "as they are (must print back identically), 15% with white space injected, 25% near misses (one byte "
@@ -185,6 +186,7 @@ PROPS = {
     "C07": {
         "level": "proof",
         "extract": ["GenReaders", "Basic", "Message", "Value", "Reader", "Encoding", "SigGrammar"],
+        "extra_modules": ["QiVerif.Props.C09Sound"],
         "rule": "every decoder entry point (Message.Read, NewValue, signature readers and reflection decoder for random "
                 "signatures, ReadMetaObject, ReadObjectReference, ReadServiceInfo, ReadCapabilityMap, signature.Parse, "
                 "idl.ParsePackage) on: a corpus of minimised witnesses, valid encodings, valid encodings with each "
